@@ -225,11 +225,18 @@ func vxODInvariant(mg *Movegen, sc *vxODScript, mode GenMode, pv, t Move, delive
 // case: (generation mode 1 = non-quiet, 2 = quiet, 3 = all) x (stage of the rest state before the call).
 // Six cases (all moves from an early stage, where one call may run through all seven scripts) need
 // several minutes per query: they form the thorough-only harness.
-func vxODDeep(k int) bool { return k == 16 || k == 22 || k == 24 || k == 25 || k == 26 || k == 27 }
+func vxODDeep(k int) bool { return k == 16 || k == 22 || k == 24 || k == 26 || k == 27 }
+
+// (mode all, rest stage od2) = case 25: its invariant query stayed undecided after 900 s in every solver
+// of the portfolio: not claimed (recorded in MANIFEST); the neighbouring stages od1 and od3 are.
+func vxODUndecided(k int) bool { return k == 25 }
 
 func vxODNth(i int, deep bool) int {
 	n := 0
 	for k := 0; k < 33; k++ {
+		if vxODUndecided(k) {
+			continue
+		}
 		if vxODDeep(k) == deep {
 			if n == i {
 				return k
@@ -243,7 +250,7 @@ func vxODNth(i int, deep bool) int {
 func VN_C08_on_demand_one_call() int  { return 27 }
 func VH_C08_on_demand_one_call(i int) { vxODOneCall(vxODNth(i, false)) }
 
-func VN_C08_on_demand_one_call_deep_T() int  { return 6 }
+func VN_C08_on_demand_one_call_deep_T() int  { return 5 }
 func VH_C08_on_demand_one_call_deep_T(i int) { vxODOneCall(vxODNth(i, true)) }
 
 func vxODOneCall(k int) {
